@@ -169,7 +169,9 @@ func c18OrderDigest(ops []porcupine.Operation) string {
 // never a violation. Returns false only for Illegal.
 func c18Linearizable(m *vk.M, sig, desc string, model porcupine.Model, ops []porcupine.Operation) bool {
 	m.Count("porcupine_concurrent_op_pairs", int64(c18OverlapPairs(ops)))
+	t0 := time.Now()
 	res, info := porcupine.CheckOperationsVerbose(model, ops, c18CheckTimeout)
+	m.Max("porcupine_slowest_check_ms", time.Since(t0).Milliseconds()) // evidence only
 	switch res {
 	case porcupine.Ok:
 		m.Count("porcupine_ok", 1)
